@@ -12,6 +12,7 @@ CONSTANTS Comp = "multi"
   NBuf = 2
   Gaps <- G_6_11
   Strict = TRUE
+  Busy = FALSE
   D = 2
 INIT Init
 NEXT Next
